@@ -215,6 +215,13 @@ class Layout:
         self.corrupt = (s, reg, bit)
         self.wire = bytes(data)
 
+    def corrupt_seen(self, rsent):
+        """Has the flipped bit been handed to the connection once rsent bytes were read?"""
+        if not self.corrupt:
+            return False
+        lo, _ = self.region(self.corrupt[0], self.corrupt[1])
+        return rsent > lo + self.corrupt[2] // 8
+
     def with_corruption(self, s, reg, bit):
         """Same configuration with one flipped bit (shares everything but the wire bytes)."""
         import copy as _copy
@@ -461,11 +468,13 @@ def spec_projection(state):
             "order": list(state["order"]), "nmsgs": len(state["order"]), "altered": 0, "defunct": bool(state["defunct"])}
 
 
-def compare(spec, code):
+def compare(spec, code, corrupt_seen=False):
     """{} when the real connection conforms.  Before the specification's receiver has failed the connection the
     projections must be equal.  Once it has (a corruption was detected) the property only asks for a failed
-    connection and no altered data: messages of untouched segments may or may not have been delivered."""
-    if spec["defunct"]:
+    connection and no altered data: messages of untouched segments may or may not have been delivered.  The same
+    holds when the real connection fails earlier than the specification's receiver would, provided the flipped
+    bit has already been handed to it (`corrupt_seen`): failing on a corrupted stream is what the property asks."""
+    if spec["defunct"] or (corrupt_seen and code.get("defunct")):
         d = {}
         if not code["defunct"]:
             d["defunct"] = {"spec": True, "code": False}
@@ -493,9 +502,7 @@ def classify(lay, rsent, code, spec_defunct, keys=()):
     if code.get("altered"):
         return "altered-data-delivered"
     if not spec_defunct and code.get("defunct"):
-        if lay.corrupt is None:
-            return "spurious-defunct:codec=%s:segment=%s" % (lay.codec, kind)
-        return "early-defunct:codec=%s" % lay.codec
+        return "spurious-defunct:codec=%s:segment=%s" % (lay.codec, kind)
     if spec_defunct and not code.get("defunct"):
         return "corruption-undetected:region=%s" % (lay.corrupt[1] if lay.corrupt else "?")
     if not spec_defunct and code.get("segbuf") == -1:
@@ -519,7 +526,7 @@ def replay_positions(h, lay, positions, expected, rng=None, reals=None):
             h.read_to(r)
             if expected is not None:
                 code = h.project()
-                d = compare(expected[n], code)
+                d = compare(expected[n], code, lay.corrupt_seen(r))
                 if d:
                     return {"step": n, "a": a, "r": r, "diff": d, "error": h.error, "err": code.get("err"),
                             "signature": classify(lay, r, code, expected[n]["defunct"], d)}
@@ -593,6 +600,7 @@ def record(h, lay, cuts):
         k = p["nsent"] - prev_a
         if k == 0 and prev_proj is not None and all(p[x] == prev_proj[x] for x in COMPARED):
             continue                     # a read inside one offset class that changed nothing observable
+        p["seen"] = lay.corrupt_seen(r)
         trace.append({"e": "Read", "k": k, "r": r, "post": p})
         prev_a, prev_proj = p["nsent"], p
         if p["defunct"]:
